@@ -7,6 +7,9 @@ CONSTANTS
   DropChoices <- DropsUpTo3
   H = 1
   PStalls = {0}
+  ConsumerStyles = {"block", "poll"}
+  StylesEverywhere = FALSE
+  PollingHelper = FALSE
   Observe = FALSE
   SkipIdxStep = FALSE
   CStalls = {0}
